@@ -2,6 +2,7 @@
 package c16
 
 import (
+	"encoding/json"
 	"fmt"
 	"os"
 	"strings"
@@ -11,6 +12,7 @@ import (
 	"pgregory.net/rapid"
 
 	"verif/harness/hist"
+	"verif/harness/httpx"
 	"verif/harness/rec"
 )
 
@@ -74,6 +76,22 @@ func balancesExact(m *hist.Machine, op string) {
 	if info.Nuts.Nut04.Disabled != wantDisabled {
 		fail(m, "C16|info_disabled_wrong", "info says disabled=%v, balance %d max balance %d", info.Nuts.Nut04.Disabled, wantBal, lim.MaxBalance)
 	}
+	// the same through the info endpoint (what wallets see; handlers may keep answers for a while)
+	if w.Cfg.WithServer {
+		r := httpx.Do(w.Handler(), "GET", "/v1/info", nil, "")
+		var doc struct {
+			Nuts map[string]json.RawMessage `json:"nuts"`
+		}
+		var n4 struct {
+			Disabled *bool `json:"disabled"`
+		}
+		if r.Status != 200 || json.Unmarshal(r.Body, &doc) != nil || json.Unmarshal(doc.Nuts["4"], &n4) != nil || n4.Disabled == nil {
+			fail(m, "C16|info_endpoint_unreadable", "GET /v1/info: status %d body %.300s", r.Status, r.Body)
+		} else if *n4.Disabled != wantDisabled {
+			fail(m, "C16|info_endpoint_disabled_wrong", "GET /v1/info says disabled=%v, balance %d max balance %d (after %s)", *n4.Disabled, wantBal, lim.MaxBalance, op)
+		}
+		m.Count["info_endpoint_read"]++
+	}
 	if wantDisabled {
 		m.Count["info_disabled_true"]++
 	}
@@ -84,6 +102,7 @@ func balancesExact(m *hist.Machine, op string) {
 
 func propBalances(t *rapid.T) {
 	cfg := hist.GenConfig(t, []uint{0, 100, 1000}, true)
+	cfg.WithServer = true
 	cfg.Limits = mint.MintLimits{
 		MaxBalance:      rapid.SampledFrom([]uint64{0, 0, 10, 500, 5000, 100000}).Draw(t, "max_balance"),
 		MintingSettings: mint.MintMethodSettings{MaxAmount: rapid.SampledFrom([]uint64{0, 0, 1, 64, 300, 70000}).Draw(t, "mint_max")},
